@@ -1,6 +1,7 @@
 package main
 
 import (
+	"encoding/json"
 	"fmt"
 	"strings"
 	"sync"
@@ -33,7 +34,41 @@ var richAlphabet = append(append([]model.Tok{}, blindAlphabet...),
 	model.T(model.LIT, "`null`"), model.T(model.LIT, "`\"a\"`"), model.T(model.LIT, "`[1, {\"a\": \"\\`\"}]`"), model.T(model.LIT, "` {} `"),
 	model.T(model.RAW, "''"), model.T(model.RAW, `'it\'s'`), model.T(model.RAW, `'a\nb "q" é'`),
 	model.T(model.CMP, "!="), model.T(model.CMP, "<="), model.T(model.CMP, ">"), model.T(model.CMP, ">="),
+	// lexically complete tokens whose content is not valid (the grammar's json-value / quoted-string / number)
+	model.T(model.LIT, "`1 2`"), model.T(model.LIT, "`{\"a\": 1} x`"), model.T(model.LIT, "`[1, 2]]`"), model.T(model.LIT, "`foo`"), model.T(model.LIT, "`[1,]`"), model.T(model.LIT, "``"), model.T(model.LIT, "`'a'`"), model.T(model.LIT, "`01`"),
+	model.T(model.QID, `"\q"`), model.T(model.QID, `"a\u12"`), model.T(model.QID, "\"a\nb\""), model.T(model.QID, `"\ud800"`),
+	model.T(model.NUM, "-"),
 )
+
+// contentOK: every token's content is valid by the grammar (JSON text in a
+// literal, JSON string syntax in a quoted identifier, digits in a number). A lone
+// surrogate escape (gap G3) gives no verdict.
+func contentOK(toks []model.Tok) (ok bool, gap bool) {
+	ok = true
+	for _, t := range toks {
+		switch t.Kind {
+		case model.LIT:
+			var v interface{}
+			body := strings.Replace(t.Text[1:len(t.Text)-1], "\\`", "`", -1)
+			if json.Unmarshal([]byte(body), &v) != nil {
+				ok = false
+			}
+		case model.QID:
+			var sv string
+			if json.Unmarshal([]byte(t.Text), &sv) != nil {
+				ok = false
+			}
+			if strings.Contains(strings.ToLower(t.Text), `\ud8`) || strings.Contains(strings.ToLower(t.Text), `\udc`) {
+				gap = true
+			}
+		case model.NUM:
+			if t.Text == "-" {
+				ok = false
+			}
+		}
+	}
+	return
+}
 
 var usabilityDocs = univ.Js(`null`, `{"a":{"a":1,"b":[1,2]},"b":[{"a":1},{"a":2}]}`, `[1,[2],{"a":3}]`, `"a"`, `1`)
 
@@ -86,6 +121,11 @@ func (w *c04Worker) judge(toks []model.Tok, style model.Style) (v c04Verdict, de
 	ks := model.Kinds(toks)
 	gs = w.strict.Accepts(ks)
 	gl = gs || w.liberal.Accepts(ks)
+	if cok, cgap := contentOK(toks); !cok {
+		gs, gl = false, false // a token whose content is invalid makes the sequence ungrammatical
+	} else if cgap {
+		gs, gl = false, true // gap G3: no verdict
+	}
 	text := model.Spell(toks, style)
 	jp, err, pn := impl.Compile(text)
 	if pn != nil {
@@ -209,7 +249,7 @@ func (w *c04Worker) report(r *harness.Run, toks []model.Tok, style model.Style, 
 
 func checkC04(r *harness.Run) harness.Coverage {
 	r.Rule = "every token sequence over a 25-symbol alphabet (one spelling per token kind, two comparators) up to the length bound, in three whitespace styles, " +
-		"plus every single-token edit of every generated sentence up to the size bound, plus sequences over a 47-symbol alphabet with structured spellings; " +
+		"plus every single-token edit of every generated sentence up to the size bound, plus sequences over a 60-symbol alphabet with structured spellings (several valid spellings per kind, and lexically complete literals / quoted identifiers / numbers whose content is invalid); " +
 		"classified by the CFG recogniser G (strict / liberal) and compared with Compile. Non-trivial = the sequence is a sentence, or is one token edit away from a sentence; distinct by token sequence."
 	r.Assumptions = []string{
 		"the grammar is the JMESPath ABNF as transcribed in model/grammar.go, grounded on the 862 compliance cases",
